@@ -38,7 +38,7 @@ func run(c *core.Ctx) {
 		nonNil++
 		r := &fnRec{id: i}
 		recs = append(recs, r)
-		beh := c.S.Plan(6)
+		beh := c.S.Plan(7)
 		delay := c.S.Plan(5)
 		c.Descf("fn %d: behaviour %d delay %d", i, beh, delay)
 		fns = append(fns, func(ctx context.Context) error {
@@ -57,6 +57,9 @@ func run(c *core.Ctx) {
 				return r.err
 			case 3:
 				r.err = context.Canceled
+				return r.err
+			case 6: // an error that merely wraps context.Canceled is a real error of this function
+				r.err = fmt.Errorf("fn-%d failed: %w", r.id, context.Canceled)
 				return r.err
 			case 4: // waits for its context, then returns its error
 				simrt.Recv1("ccallx.fn-wait", ctx.Done())
@@ -123,6 +126,12 @@ func run(c *core.Ctx) {
 		if running == 0 {
 			c.Fail("C17.Q.blocked-with-nothing-running", "CallConcurrently is blocked at a quiescent point although every function has returned")
 			return
+		}
+		for _, r := range recs {
+			if r.returned != 0 && r.err != nil && r.err != context.Canceled {
+				c.Fail("C17.Q.blocked-despite-real-error", "CallConcurrently is still blocked at a quiescent point although function %d has returned the error %v", r.id, r.err)
+				return
+			}
 		}
 		c.S.Count("probe:caller-blocked-at-quiescence")
 		if len(gates) > 0 && !c.S.FaultP(300) {
